@@ -274,13 +274,36 @@ def forked_run(wl: dict, cache_dir: Path | None, logpath: str, kill: dict | None
                     pplan.kill_at_yield = int(kill.get("at", -1)) if kill.get("kind") == "yield" else -1
                     pplan.script = ls.get("script")
                     pplan.tparams = ls.get("tparams")
+                    if kill.get("kind") == "parent_only":
+                        pplan.kill_at_yield = int(kill.get("at", -1))
+                        pplan.parent_only = True
+                    from simkit import lockstep as _ls
+
+                    _ls.install_worker_pids()
                 simpool.install(pplan)
             out: dict
             crashfs.arm(plan)
             try:
-                res = run_workload(wl, cache_dir, logpath, timeout=(60.0 if ls is not None and ls.get("timeouts") else None))
+                try:
+                    res = run_workload(wl, cache_dir, logpath, timeout=(60.0 if ls is not None and ls.get("timeouts") else None))
+                except BaseException as e:  # noqa: BLE001
+                    if type(e).__name__ != "ParentDied":
+                        raise
+                    # only the parent was killed.  The user starts the run again at once, while the
+                    # orphaned workers of the first one are still finishing their tasks
+                    from simkit import lockstep as _ls
+
+                    plan2 = simpool.PoolPlan(workers=wl["W"], seed=int(ls.get("seed", 0)) + 1)
+                    plan2.lockstep = True
+                    plan2.adopt_orphans = True
+                    simpool.install(plan2)
+                    res = run_workload(wl, cache_dir, logpath)
+                    pplan = plan2
+                    out_extra = {"overlapped_with_orphans": len(_ls.ORPHANS)}
+                else:
+                    out_extra = {}
                 crashfs.disarm()
-                out = {"status": "ok", "result": res}
+                out = {"status": "ok", "result": res, **out_extra}
             except crashfs.SimWorkerDeath:
                 crashfs.disarm()
                 out = {"status": "exc", "exc": "SimWorkerDeath"}
@@ -542,6 +565,31 @@ class History:
             f"{k['kind']}" + ("" if k.get("whole", True) else ":worker") + (":lockstep" if k.get("lockstep") else "") + (":timeouts" if (k.get("lockstep") or {}).get("timeouts") else "")
             for k in kills
         )
+        if kills and kills[0].get("kind") == "parent_only":
+            # R1 and R2 overlap in time: the parent of R1 is killed, its workers finish their tasks
+            # while R2 (same cache directory) is already running
+            out = forked_run(self.wl, d, log, kills[0])
+            self.counters[f"kill:parent_only:{out['status']}"] += 1
+            if out.get("overlapped_with_orphans"):
+                self.counters["fault_fired:parent_only_death_orphans_overlap_with_rerun"] += 1
+                self.counters["probe:orphans_in_flight"] += int(out["overlapped_with_orphans"])
+            self.trace.add("R1||R2", kills[0], out["status"], out.get("exc"), out.get("overlapped_with_orphans"))
+            if out["status"] != "ok":
+                self._viol("rerun_failed", ["rerun_failed", self.wl["kind"], "lockstep", "parent_only+orphans", out.get("exc", "?")], f"a rerun started while the orphaned workers of a killed parent were still writing raised {out.get('exc')}")
+                return
+            if out["result"] != self.ref:
+                self._viol("rerun_wrong_result", ["rerun_wrong_result", self.wl["kind"], "lockstep", "parent_only+orphans"], "a rerun that overlapped with the orphaned workers of a killed parent returned a result that differs from the run without cache")
+                return
+            n_r2 = _count_log(log)
+            out3 = forked_run(self.wl, d, log, {"kind": "none"})
+            if out3["status"] != "ok":
+                self._viol("rerun_failed", ["rerun_failed", self.wl["kind"], "lockstep", "parent_only+orphans", "third:" + out3.get("exc", "?")], "the run after the overlapped rerun raised")
+            elif out3["result"] != self.ref:
+                self._viol("rerun_wrong_result", ["rerun_wrong_result", self.wl["kind"], "lockstep", "parent_only+orphans", "third"], "the run after the overlapped rerun differs from the run without cache")
+            elif _count_log(log) != n_r2:
+                self._viol("recomputed", ["recomputed", self.wl["kind"], "lockstep", "after_overlapped_rerun"], "the run after a completed rerun recomputed results")
+            shutil.rmtree(d, ignore_errors=True)
+            return
         for k in kills:
             out = forked_run(self.wl, d, log, k)
             self.counters[f"kill:{k['kind']}:{out['status']}"] += 1
@@ -665,6 +713,8 @@ class CrashMachine(Machine):
         pts = list(range(n)) if n <= cap else sorted(r.sample(range(n), cap))
         kills: list[list[dict]] = [[{"kind": "none", "lockstep": ls}]]  # timeouts / in-flight run, then plain reruns
         kills += [[{"kind": "yield", "at": p, "lockstep": ls}] for p in pts]
+        if not ls.get("timeouts"):
+            kills += [[{"kind": "parent_only", "at": p, "lockstep": ls}] for p in (pts if len(pts) <= 8 else sorted(r.sample(pts, 8)))]
         for _ in range(min(3, len(pts))):
             a = {"kind": "yield", "at": r.choice(pts), "lockstep": ls}
             b = {"kind": "yield", "at": r.randrange(max(1, n)), "lockstep": dict(ls, seed=r.randrange(10**6))}
